@@ -70,12 +70,19 @@ Proof.
 Qed.
 
 (* geometry_of_dict consults only these keys *)
-Definition geometry_keys : list M9.str := [kShankMap; kGeomMap; kSplit] ++ P9.version_keys.
+Definition kTypeThis := M9.lit "typeThis".
+Definition kApLfSy := M9.lit "snsApLfSy".
+Definition geometry_keys : list M9.str := [kShankMap; kGeomMap; kSplit; kTypeThis; kApLfSy] ++ P9.version_keys.
+
+Lemma get_type_agree a b : M9.lookup kTypeThis a = M9.lookup kTypeThis b ->
+  M9.lookup kApLfSy a = M9.lookup kApLfSy b -> M9.get_type a = M9.get_type b.
+Proof. intros H1 H2. unfold M9.get_type. fold kTypeThis kApLfSy. now rewrite H1, H2. Qed.
 
 Lemma geometry_of_dict_agree a b sort : P9.agree_on geometry_keys a b ->
   geometry_of_dict a sort = geometry_of_dict b sort.
 Proof.
-  intros H. unfold geometry_of_dict, channel_map, split_key.
+  intros H. unfold geometry_of_dict, channel_map, split_key, type_is_nidq.
+  rewrite (get_type_agree a b) by (apply H; unfold geometry_keys; cbn [In app]; auto 6).
   rewrite (H kShankMap), (H kGeomMap), (H kSplit) by (unfold geometry_keys; cbn [In app]; auto).
   rewrite (P9.version_agree a b); [reflexivity|].
   intros k Hk. apply H. unfold geometry_keys. apply in_or_app. now right.
@@ -159,4 +166,22 @@ Proof.
     now rewrite Esp.
   - destruct Hm as [Hm1 Hm2]. rewrite Hm1, Hm2. cbn [option_map].
     rewrite text_value_map, map_value_printed by assumption. now rewrite Esp.
+Qed.
+
+(* the no-table fallback as a function of (version, stream type) *)
+Lemma fallback_table d sort : (channel_map d = NoKey \/ channel_map d = Empty) ->
+  geometry_of_dict d sort = fallback (M9.version d) (type_is_nidq d) /\
+  (M9.version d = None -> geometry_of_dict d sort = NoGeometry) /\
+  (forall v, M9.version d = Some v ->
+     (M9.get_type d = Some (Some M9.SNidq) -> geometry_of_dict d sort = NoGeometry) /\
+     (forall t, M9.get_type d = Some t -> t <> Some M9.SNidq ->
+        geometry_of_dict d sort = of_opt (geometry_default (gen_of_vers v)))).
+Proof.
+  intros Hc. assert (E : geometry_of_dict d sort = fallback (M9.version d) (type_is_nidq d))
+    by (unfold geometry_of_dict; destruct Hc as [-> | ->]; reflexivity).
+  split; [exact E|]. rewrite E. split.
+  - intros ->. reflexivity.
+  - intros v ->. unfold fallback, type_is_nidq. split.
+    + intros ->. reflexivity.
+    + intros t -> Ht. destruct t as [[| |]|]; try reflexivity. congruence.
 Qed.
